@@ -114,3 +114,93 @@ def dict_tables(repo):
         raise Abort("model_from_dict: `k in {...}` not found")
     out.append("Definition dt_model_attrs : list (list Z) := %s." % _coq_strs(sorted(attrs)))
     return "\n".join(out)
+
+
+# ----------------------------------------------------------------------------- C10: io/sbml.py
+_CODEC_BODIES = {
+    "_clip": ["return sid[len(prefix):] if sid.startswith(prefix) else sid"],
+    "_f_gene": ["sid = sid.replace(SBML_DOT, '.')", "sid = pattern_from_sbml.sub(_number_to_chr, sid)",
+                "return _clip(sid, prefix)"],
+    "_f_gene_rev": ["sid = pattern_to_sbml.sub(_escape_non_alphanum, sid)", "return prefix + sid.replace('.', SBML_DOT)"],
+    "_escape_non_alphanum": ["return '__' + str(ord(nonASCII.group())) + '__'"],
+    "_number_to_chr": ["return chr(int(numberStr.group(1)))"],
+}
+for _k in ("specie", "reaction", "group"):
+    _CODEC_BODIES["_f_" + _k] = ["sid = pattern_from_sbml.sub(_number_to_chr, sid)", "return _clip(sid, prefix)"]
+    _CODEC_BODIES["_f_" + _k + "_rev"] = ["sid = pattern_to_sbml.sub(_escape_non_alphanum, sid)", "return prefix + sid"]
+
+
+def _body(fn):
+    return [ast.unparse(b) for b in fn.body
+            if not (isinstance(b, ast.Expr) and isinstance(b.value, ast.Constant) and isinstance(b.value.value, str))]
+
+
+def _str_const(tree, name):
+    v = module_assign(tree, name)
+    if not (isinstance(v, ast.Constant) and isinstance(v.value, str)):
+        raise Abort("%s: string literal expected" % name)
+    return v.value
+
+
+def _regex_source(tree, name):
+    v = module_assign(tree, name)
+    if not (isinstance(v, ast.Call) and ast.unparse(v.func) == "re.compile" and len(v.args) == 1 and not v.keywords
+            and isinstance(v.args[0], ast.Constant) and isinstance(v.args[0].value, str)):
+        raise Abort("%s: re.compile(<literal>) expected" % name)
+    return v.args[0].value
+
+
+@section("SbmlTables")
+def sbml_tables(repo):
+    tree, _ = parse(repo, "io/sbml.py")
+    out = []
+    for name, want in _CODEC_BODIES.items():
+        got = _body(find_def(tree, name))
+        if got != want:
+            raise Abort("%s: body not recognised: %r" % (name, got))
+    prefixes = {}
+    for kind in ("gene", "specie", "reaction", "group"):
+        for suf in ("", "_rev"):
+            fn = find_def(tree, "_f_%s%s" % (kind, suf))
+            a = fn.args
+            if [x.arg for x in a.args] != ["sid", "prefix"] or len(a.defaults) != 1 or \
+                    not isinstance(a.defaults[0], ast.Constant) or not isinstance(a.defaults[0].value, str):
+                raise Abort("_f_%s%s: signature not recognised" % (kind, suf))
+            prefixes.setdefault(kind, set()).add(a.defaults[0].value)
+        if len(prefixes[kind]) != 1:
+            raise Abort("_f_%s and its inverse use different prefixes" % kind)
+        out.append("Definition sb_prefix_%s : list Z := %s." % (kind, coq_string(prefixes[kind].pop())))
+    to_sbml = _regex_source(tree, "pattern_to_sbml")
+    from_sbml = _regex_source(tree, "pattern_from_sbml")
+    # the two regular expressions are modelled by hand (SbmlId.v: is_plain / try_esc); their source text is pinned
+    out.append("Definition sb_pattern_to_sbml : list Z := %s." % coq_string(to_sbml))
+    out.append("Definition sb_pattern_from_sbml : list Z := %s." % coq_string(from_sbml))
+    out.append("Definition sb_dot : list Z := %s." % coq_string(_str_const(tree, "SBML_DOT")))
+    for coqname, pyname in [("sb_lower_bound_id", "LOWER_BOUND_ID"), ("sb_upper_bound_id", "UPPER_BOUND_ID"),
+                            ("sb_zero_bound_id", "ZERO_BOUND_ID"), ("sb_minus_inf_id", "BOUND_MINUS_INF"),
+                            ("sb_plus_inf_id", "BOUND_PLUS_INF")]:
+        out.append("Definition %s : list Z := %s." % (coqname, coq_string(_str_const(tree, pyname))))
+    # _create_bound: the order of the comparisons
+    cb = find_def(tree, "_create_bound")
+    tests = []
+    for node in ast.walk(cb):
+        if isinstance(node, ast.If) and isinstance(node.test, ast.Compare) and ast.unparse(node.test.left) == "value" \
+                and isinstance(node.body[0], ast.Return):
+            tests.append((ast.unparse(node.test.comparators[0]), ast.unparse(node.body[0].value)))
+    want = [("config.lower_bound", "LOWER_BOUND_ID"), ("0", "ZERO_BOUND_ID"), ("config.upper_bound", "UPPER_BOUND_ID"),
+            ("-float('Inf')", "BOUND_MINUS_INF"), ("float('Inf')", "BOUND_PLUS_INF")]
+    if tests != want:
+        raise Abort("_create_bound: comparison chain not recognised: %r" % (tests,))
+    if "pid = rid + '_' + bound_type" not in ast.unparse(cb):
+        raise Abort("_create_bound: parameter id not recognised")
+    # how the reader creates the reaction before assigning the two bounds one after the other
+    src = ast.unparse(find_def(tree, "_sbml_to_model"))
+    plain = "cobra_reaction = Reaction(rid)" in src
+    wide = "cobra_reaction = Reaction(rid, lower_bound=-float('inf'), upper_bound=float('inf'))" in src
+    if plain == wide:
+        raise Abort("_sbml_to_model: construction of the reaction not recognised")
+    if "cobra_reaction.lower_bound = p_lb.getValue()" not in src or "cobra_reaction.upper_bound = p_ub.getValue()" not in src \
+            or src.find("cobra_reaction.lower_bound = p_lb.getValue()") > src.find("cobra_reaction.upper_bound = p_ub.getValue()"):
+        raise Abort("_sbml_to_model: assignment of bounds not recognised")
+    out.append("Definition sb_reader_wide_default : bool := %s." % ("true" if wide else "false"))
+    return "\n".join(out)
